@@ -1048,11 +1048,16 @@ class OptionStore:
         new_value = opt.validate_value(new_value)
         if key in self.options:
             old_value = opt.value
+            # An option that stops yielding must be saved even if its own
+            # value stays the same.
+            unsaved = opt.yielding
             opt.set_value(new_value)
             opt.yielding = False
         else:
             assert key.subproject is not None
             old_value = self.augments.get(key, opt.value)
+            # So must a subproject that gets an override of its own.
+            unsaved = key not in self.augments
             self.augments[key] = new_value
 
         changed |= old_value != new_value
@@ -1072,7 +1077,7 @@ class OptionStore:
             self.set_option(dkey, debug, first_invocation)
             self.set_option(optkey, optimization, first_invocation)
 
-        return changed
+        return changed or unsaved
 
     def set_user_option(self, o: OptionKey, new_value: ElementaryOptionValues, first_invocation: bool = False) -> bool:
         if not self.is_cross and o.is_for_build():
